@@ -73,6 +73,12 @@ check("C06", "exploration",
       "property-based testing (rapid): history invariants over generated kill scenarios, virtual time, white-box table reads",
       "DESIGN.md §4 C06")
 
+check("C04", "exploration",
+      "Generated Ask / reply / timeout / asker-death / Close / PipeTo histories on a virtual clock are compared with a reference model of the earliest completing cause (exact instants, exact values, every waiter, every forwarder, empty tables afterwards); a real-clock stress with nanosecond timeouts, PipeTo on another thread and dying askers runs under the race detector with the same value / exactly-once / no-registration oracles.",
+      "Virtual-time part: sampling of histories, ties accepted either way. Real-clock part: schedule sampling by the Go runtime; races are found only if they occur in a run.",
+      "model-based property testing (rapid) in virtual time + randomised real-thread stress under -race with value / exactly-once / leak oracles",
+      "DESIGN.md §4 C04")
+
 NOT_YET = {}
 
 def main():
